@@ -1327,3 +1327,15 @@ package rockredis
 //@   ensures result1 == nil && result0 != nil && ghost(rawlen, db) >= 8 ==> len(result0) == ghost(rawlen, db) - 8
 //@   ensures result1 != nil ==> result0 == nil
 //@   modifies ghost(rawlen, db)
+
+// ---- whole-table / partial-table ranges (C12): the meta range of table T starts at "T:" + start and ends at
+// "T:" + end, or at "T;" (the byte after the separator) when no end is given - never at the bare table name, which
+// would also cover every table whose name merely starts with T ----
+//@ property C12
+//@ func encodeScanKey(storeDataType byte, key []byte) ([]byte, error)
+//@   trusted meta key of the given type for a raw key (the per-type encoders are under contract: C12)
+//@   ensures result1 == nil ==> fresh(result0)
+//@ func getTableMetaRange(dt byte, table []byte, start []byte, end []byte) ([]byte, []byte, error)
+//@   requires (start == nil || start.arr != table.arr) && (end == nil || end.arr != table.arr)
+//@   callassert encodeScanKey len(arg1) >= len(table) + 1 && (forall i int :: 0 <= i && i < len(table) ==> arg1[i] == table[i]) && ((arg1[len(table)] == 58 && ((len(arg1) == len(table) + 1 + len(start) && eqAt(arg1, len(table) + 1, start)) || (end != nil && len(arg1) == len(table) + 1 + len(end) && eqAt(arg1, len(table) + 1, end)))) || (arg1[len(table)] == 59 && end == nil && len(arg1) == len(table) + 1))
+//@   modifies *
